@@ -481,7 +481,10 @@ def _run_ds(c):
         leaves[n] = rec
     reqs = []
     for n in names:
-        for exact in ([False, True] if (ints and not x64) else [False]):
+        # no EXACT claim for the normalised graft types: XLA may evaluate `grad / (norm + eps)` (division by a
+        # broadcast scalar) as a multiplication by the rounded reciprocal, which is not rounding-free (seen: 0.75**2
+        # stored as 0.5625 + 2 ulp); they are compared under TOL only
+        for exact in ([False, True] if (ints and not x64 and not G.endswith("NORMALIZED")) else [False]):
             reqs.append({"leaf": n, "exact": exact, "req": {
                 "op": "ds_run", "scalar": "exact" if exact else "f64", "graft": G,
                 "beta2": _sc(c["beta2"], exact), "diag_eps": _sc(c["diag_eps"], exact), "eps": _sc(eps, exact),
@@ -962,7 +965,9 @@ def run(ctx):
     ctx.assumptions += [
         "EXACT-DYADIC: on integer-valued histories the driver evaluates the model at exact rationals and flags a coordinate when every "
         "intermediate has an exact rational square root and lies within 2^-40 (relative) of a float32 value; there the float32 "
-        "implementation can only absorb the epsilon constants, so it must equal the rational result rounded once to float32",
+        "implementation can only absorb the epsilon constants, so it must equal the rational result rounded once to float32; "
+        "not claimed for the *_NORMALIZED graft types (XLA may turn the division by the scalar norm into a multiplication by its "
+        "rounded reciprocal)",
         "TOL: binary64 run of the model on the float32 inputs; |impl - model| <= 2e-5 |model_i| + 2e-6 max|model| (float32 rounding of "
         "norms, square roots, divisions; graft accumulators over <= 6 steps)",
         "the preconditioned gradient p is observed through the public API (same configuration with GraftingType.NONE, coupled lr: "
